@@ -30,7 +30,7 @@ func Hostile(r *RNG, n int) [][]byte {
 	}
 	for len(out) < n {
 		b := valid()
-		switch r.Intn(13) {
+		switch r.Intn(15) {
 		case 0: // as is
 		case 1: // bit flips
 			for range 1 + r.Intn(4) {
@@ -63,6 +63,39 @@ func Hostile(r *RNG, n int) [][]byte {
 			b[0] |= byte(r.Intn(4) << 6)
 		case 10: // empty / tiny
 			b = r.Bytes(r.Intn(4))
+		case 13, 14: // a request that carries MESSAGE-INTEGRITY and a NONCE of unusual shape (lengths, alphabets)
+			m := new(stun.Message)
+			m.Type = stun.MessageType{Method: Pick(r, []stun.Method{stun.MethodAllocate, stun.MethodRefresh, stun.MethodCreatePermission, stun.MethodChannelBind, stun.MethodConnect, stun.MethodConnectionBind}), Class: stun.ClassRequest}
+			copy(m.TransactionID[:], r.Bytes(12))
+			m.WriteHeader()
+			alnum := "0123456789ABCDEFGHIJKLMNOPQRSTUVWXYZabcdefghijklmnopqrstuvwxyz"
+			nl := Pick(r, []int{0, 1, 2, 15, 16, 23, 24, 25, 26, 32, 40, 64, 80, 128, 763})
+			nonce := make([]byte, nl)
+			for i := range nonce {
+				switch r.Intn(10) {
+				case 0:
+					nonce[i] = byte(r.Intn(256))
+				default:
+					nonce[i] = alnum[r.Intn(len(alnum))]
+				}
+			}
+			if r.Chance(60) {
+				for i := range nonce {
+					nonce[i] = alnum[r.Intn(len(alnum))]
+				}
+			}
+			if r.Chance(15) {
+				for i := range nonce {
+					nonce[i] = 'Z'
+				}
+			}
+			m.Add(stun.AttrUsername, []byte("user1"))
+			m.Add(stun.AttrRealm, []byte("realm1"))
+			m.Add(stun.AttrNonce, nonce)
+			if !r.Chance(10) {
+				m.Add(stun.AttrMessageIntegrity, r.Bytes(Pick(r, []int{20, 20, 20, 19, 21, 0})))
+			}
+			b = append([]byte{}, m.Raw...)
 		case 12: // well-formed ChannelData whose payload begins with the STUN magic cookie
 			n := 0x4000 + r.Intn(0x4000)
 			p := append([]byte{0x21, 0x12, 0xA4, 0x42}, r.Bytes(Pick(r, []int{0, 4, 12, 16, 20, 40}))...)
